@@ -284,18 +284,18 @@ theorem chainOk_iff (g : Graph) (p : Params) : ∀ (path : RPath) (src : Nat),
           cases hl' : resolve g p h.node h' with
           | none => simp [hl, hl'] at hc
           | some c' =>
-            simp only [hl, hl', Bool.and_eq_true, decide_eq_true_eq, hopOk_iff] at hc
-            obtain ⟨⟨⟨hok, hfee⟩, hcl⟩, hrest⟩ := hc
+            simp only [hl, hl', Bool.and_eq_true, decide_eq_true_eq, hopOk_iff, Bool.not_eq_true'] at hc
+            obtain ⟨⟨⟨⟨hnb, hok⟩, hfee⟩, hcl⟩, hrest⟩ := hc
             cases hf : compute_fees (pathAmount (h' :: t')) c'.feeBase c'.feeProp with
             | none => simp [hf] at hfee
             | some f =>
               simp only [hf, decide_eq_true_eq] at hfee
-              exact ChainOK.cons src h h' t' c c' f hl hok hl' hf hfee hcl ((ih h.node).mp hrest)
+              exact ChainOK.cons src h h' t' c c' f hnb hl hok hl' hf hfee hcl ((ih h.node).mp hrest)
       · intro hc
         cases hc with
-        | cons _ _ _ _ c c' f hl hok hl' hf hfee hcl hrest =>
-          simp only [hl, hl', hf, Bool.and_eq_true, decide_eq_true_eq, hopOk_iff]
-          exact ⟨⟨⟨hok, hfee⟩, hcl⟩, (ih h.node).mpr hrest⟩
+        | cons _ _ _ _ c c' f hnb hl hok hl' hf hfee hcl hrest =>
+          simp only [hl, hl', hf, Bool.and_eq_true, decide_eq_true_eq, hopOk_iff, Bool.not_eq_true']
+          exact ⟨⟨⟨⟨hnb, hok⟩, hfee⟩, hcl⟩, (ih h.node).mpr hrest⟩
 
 theorem chkFee_iff (p : Params) (r : Route) : chkFee p r = true ↔ ∀ m, p.maxFee = some m → totalFees p r ≤ m := by
   unfold chkFee
